@@ -259,7 +259,11 @@ def removal_span_rule(fb, it):
         return False, ("the span is %s .. %s, specification exactly L[0] .. last(L) + 1 for the removal list L (a shorter span leaves removed positions in place and can hand the "
                        "storage tree an empty batch; a longer one rewrites positions outside the removal set)" % (sh(rng[0], 60) if rng else None, sh(rng[1], 120) if rng else None))
     wr = [c for p in paths for c in p.calls(r"MerkleTree::<D, H>::set_range$")]
-    if not wr or any(c[2][1] != first or not (c[2][2][0] == "phi" and c[2][2][3] == "new_leaves") for c in wr):
+    # the values handed to set_range are the vector the span loop pushed into (a loop-carried variable that starts empty)
+    def built_in_loop(t):
+        return isinstance(t, tuple) and t and t[0] == "phi" and isinstance(t[4], tuple) and t[4] and (
+            t[4][0] == "vecnew" or (t[4][0] == "call" and re.search(r"Vec::<T>::(new|with_capacity)$", t[4][1])))
+    if not wr or any(c[2][1] != first or not built_in_loop(c[2][2]) for c in wr):
         return False, "the values are written with set_range(%s, %s), specification set_range(L[0], values)" % (sh(wr[0][2][1], 40) if wr else None, sh(wr[0][2][2], 40) if wr else None)
     s = treefx.summarize(fb, it)
     if s["f1"] or [x[0] for x in s["f0"]] != ["elems"] or s["f0"][0][1] != L:
